@@ -269,3 +269,79 @@ pub fn boom_e<T>(id: i64) -> T {
     log(format!("E{}", id));
     panic!("boom")
 }
+
+// ---- async kinds: ready futures (value-level correspondence; pending points are exercised by harness/asyncrt) ----
+pub fn fut<T>(id: i64, v: T) -> futures::future::Ready<T> {
+    log(format!("E{}", id));
+    futures::future::ready(v)
+}
+/// adds k to the payload of an Option / Result / plain value (operand of `|>` on a future: FutureExt::map sees the whole output)
+pub trait WAdd {
+    fn wadd(self, k: i64) -> Self;
+}
+impl WAdd for i64 {
+    fn wadd(self, k: i64) -> Self {
+        self + k
+    }
+}
+impl<T: WAdd> WAdd for Option<T> {
+    fn wadd(self, k: i64) -> Self {
+        self.map(|x| x.wadd(k))
+    }
+}
+impl<T: WAdd> WAdd for Result<T, i64> {
+    fn wadd(self, k: i64) -> Self {
+        self.map(|x| x.wadd(k))
+    }
+}
+pub fn wadd<T: WAdd + Show>(id: i64, k: i64) -> impl Fn(T) -> T + Send + Sync + 'static {
+    log(format!("E{}", id));
+    move |x| {
+        log(format!("C{}({})", id, x.show()));
+        x.wadd(k)
+    }
+}
+pub fn fres_if(id: i64, m: i64, r: i64, k: i64, e: i64) -> impl Fn(i64) -> futures::future::Ready<Result<i64, i64>> + Send + Sync + 'static {
+    log(format!("E{}", id));
+    move |x| {
+        log(format!("C{}({})", id, x.show()));
+        futures::future::ready(if x.rem_euclid(m) == r { Err(e) } else { Ok(x + k) })
+    }
+}
+pub fn for_else_res(id: i64, k: i64) -> impl Fn(i64) -> futures::future::Ready<Result<i64, i64>> + Send + Sync + 'static {
+    log(format!("E{}", id));
+    move |e| {
+        log(format!("C{}({})", id, e.show()));
+        futures::future::ready(if k < 0 { Err(e - k) } else { Ok(e + k) })
+    }
+}
+macro_rules! fhandlers {
+    ($f:ident, $fo:ident, $($n:ident),+) => {
+        #[allow(non_snake_case)]
+        pub fn $f<$($n: Show),+>(id: i64) -> impl Fn($($n),+) -> futures::future::Ready<($($n),+)> + Send + Sync + 'static {
+            log(format!("E{}", id));
+            move |$($n),+| {
+                log(format!("C{}({})", id, vec![$($n.show()),+].join(",")));
+                futures::future::ready(($($n),+))
+            }
+        }
+        #[allow(non_snake_case)]
+        pub fn $fo<$($n: Show),+>(id: i64) -> impl Fn($($n),+) -> futures::future::Ready<Result<($($n),+), i64>> + Send + Sync + 'static {
+            log(format!("E{}", id));
+            move |$($n),+| {
+                log(format!("C{}({})", id, vec![$($n.show()),+].join(",")));
+                futures::future::ready(Ok(($($n),+)))
+            }
+        }
+    };
+}
+fhandlers!(fhd1, fhd1_ok, A);
+fhandlers!(fhd2, fhd2_ok, A, B);
+fhandlers!(fhd3, fhd3_ok, A, B, C);
+fhandlers!(fhd4, fhd4_ok, A, B, C, D);
+
+/// drives the future a macro returns on a tokio current-thread runtime (tasks of the spawn kinds run on this thread)
+pub fn block_on_rt<F: std::future::Future>(f: F) -> F::Output {
+    let rt = tokio::runtime::Builder::new_current_thread().enable_all().build().unwrap();
+    rt.block_on(f)
+}
